@@ -130,11 +130,52 @@ func (e *Engine) VerifyFunc(full string) *FuncResult {
 		for _, fv := range fn.FreeVars {
 			bindings = append(bindings, env[fv.Name()].V)
 		}
-		e.branch(func() {
-			e.runFunction(st, fn, args, bindings, func(st2 *State, res Val) {
-				e.atReturn(st2, fn, ct, env, res, pkg)
-			})
-		})
+		// parameters of sealed interface types: one run per implementation (the dynamic type is then concrete everywhere)
+		type choice struct {
+			idx int
+			T   types.Type
+		}
+		var sealedParams []int
+		for i := range names {
+			if _, isI := typs[i].Underlying().(*types.Interface); isI && e.Specs.Sealed[ifaceName(typs[i])] {
+				sealedParams = append(sealedParams, i)
+			}
+		}
+		var runWith func(k int, st *State, args []Val, env map[string]specBind)
+		runWith = func(k int, st *State, args []Val, env map[string]specBind) {
+			if k == len(sealedParams) {
+				e.branch(func() {
+					e.runFunction(st, fn, args, bindings, func(st2 *State, res Val) {
+						e.atReturn(st2, fn, ct, env, res, pkg)
+					})
+				})
+				return
+			}
+			i := sealedParams[k]
+			impls := e.implementers(typs[i])
+			e.Assumed["closed world: interface "+ifaceName(typs[i])+" is implemented only by "+implNames(impls)] = true
+			for _, T := range impls {
+				st2 := st.clone()
+				a2 := append([]Val(nil), args...)
+				env2 := map[string]specBind{}
+				for kk, vv := range env {
+					env2[kk] = vv
+				}
+				v := args[i]
+				tagc := tb.Int(e.typeTag(T))
+				nv := Val{T: []*Term{tagc, v.T[1]}, Ann: map[string]Ann{"": &IfaceX{Dyn: T}}}
+				e.branch(func() {
+					e.assume(st2, tb.Eq(v.T[0], tagc))
+					if _, isPtr := T.Underlying().(*types.Pointer); isPtr {
+						e.assume(st2, tb.Neq(v.T[1], tb.Int(0)))
+					}
+					a2[i] = nv
+					env2[names[i]] = specBind{nv, typs[i]}
+					runWith(k+1, st2, a2, env2)
+				})
+			}
+		}
+		runWith(0, st, args, env)
 	}()
 	return fr
 }
@@ -305,4 +346,49 @@ func (o *Obl) ValueTerms() []*Term {
 		}
 	}
 	return out
+}
+
+// implementers lists the named types (and pointers to them) of the loaded repository packages that implement iface.
+func (e *Engine) implementers(iface types.Type) []types.Type {
+	it := iface.Underlying().(*types.Interface)
+	var out []types.Type
+	var paths []string
+	for p := range e.Pkgs {
+		paths = append(paths, p)
+	}
+	sort.Strings(paths)
+	for _, p := range paths {
+		pk := e.Pkgs[p]
+		if !isRepoPkg(pk.Types) {
+			continue
+		}
+		sc := pk.Types.Scope()
+		for _, n := range sc.Names() {
+			tn, ok := sc.Lookup(n).(*types.TypeName)
+			if !ok || tn.IsAlias() {
+				continue
+			}
+			T := tn.Type()
+			if _, isI := T.Underlying().(*types.Interface); isI {
+				continue
+			}
+			if strings.HasSuffix(e.Fset.Position(tn.Pos()).Filename, "_test.go") {
+				continue
+			}
+			if types.Implements(T, it) {
+				out = append(out, T)
+			} else if types.Implements(types.NewPointer(T), it) {
+				out = append(out, types.NewPointer(T))
+			}
+		}
+	}
+	return out
+}
+
+func implNames(ts []types.Type) string {
+	var ns []string
+	for _, t := range ts {
+		ns = append(ns, canonType(t))
+	}
+	return strings.Join(ns, ", ")
 }
